@@ -7,13 +7,14 @@ import (
 	"verif/harness/sim"
 )
 
-var cliSites = []string{"cli.accept.recv", "cli.deliver.lock", "cli.send.lock", "cli.wait.lock", "cli.wait.hook", "cli.cb.lock", "cli.close.lock"}
+var cliSites = []string{"rsp.wait.woke", "rsp.wait.woke", "cli.accept.recv", "cli.deliver.lock", "cli.send.lock", "cli.wait.lock", "cli.wait.hook", "cli.cb.lock", "cli.close.lock"}
 
 func clientCfg(t *rapid.T) sim.CConfig {
 	c := sim.CConfig{Chan: pick(t, "chan", []string{"direct", "pipe"}), Salt: rapid.Uint64().Draw(t, "salt"), Yield: pick(t, "yield", []int{0, 0, 1, 3})}
 	if rapid.IntRange(0, 9).Draw(t, "nohooks") == 0 {
 		c.NoHooks = true
 	}
+	c.HookCalls = rapid.IntRange(0, 3).Draw(t, "hookcalls") == 0
 	if rapid.IntRange(0, 2).Draw(t, "pins") == 0 {
 		n := rapid.IntRange(1, 2).Draw(t, "npins")
 		for i := 0; i < n; i++ {
@@ -141,6 +142,12 @@ func LifecycleScenario(t *rapid.T) sim.CScenario {
 			}
 			if kind == "batch" {
 				ns := rapid.IntRange(1, 3).Draw(t, "nspecs")
+				if rapid.IntRange(0, 9).Draw(t, "nospecs") == 0 {
+					// a batch of nothing (a list filtered down to empty): whatever Batch
+					// answers, no record may go out for it
+					ns = 0
+					st.NoSpecs = pick(t, "nokind", []string{"nil", "empty"})
+				}
 				for i := 0; i < ns; i++ {
 					note := rapid.IntRange(0, 3).Draw(t, "spnote") == 0
 					st.Specs = append(st.Specs, note)
@@ -160,7 +167,7 @@ func LifecycleScenario(t *rapid.T) sim.CScenario {
 			}
 			st = sim.CStep{Op: "reply", Items: []sim.ReplyItem{{Kind: pick(t, "rk", []string{"result", "result", "error", "resultnullerr"}), Op: e.op, I: e.i, N: rapid.IntRange(1, 3).Draw(t, "n")}}}
 		case roll < 64 && len(cancellable) > 0:
-			st = sim.CStep{Op: "ctxcancel", K: pick(t, "ck", cancellable)}
+			st = sim.CStep{Op: "ctxcancel", K: pick(t, "ck", cancellable), After: pick(t, "after", []int{0, 0, 3000, 15000, 40000, 100000})}
 		case roll < 70:
 			st = sim.CStep{Op: "advance", D: pick(t, "adv", []int{500, 1200, 3500})}
 		case roll < 78:
